@@ -454,6 +454,11 @@ func main() {
 	emitTemplate(&tp)
 	tp.f("end MageModel.Generated.Template\n")
 	writeIfChanged(filepath.Join(*outDir, "Template.lean"), tp.b.String())
+
+	// Template AST (translator: template text -> Lean term)
+	var ta out
+	emitTemplateAst(&ta)
+	writeIfChanged(filepath.Join(*outDir, "TemplateAst.lean"), ta.b.String())
 }
 
 // stringLit returns the value of a Go string literal / concatenation of literals, or ok=false.
